@@ -44,7 +44,7 @@ TRUSTED = [
     "the description node's tokens are the list (kind, start, len) the harness reads off the rowan tree",
     "the markup grammars (markdown/mod.rs, markdown_rst/mod.rs, lang/*) are not modelled; their use of the kernel API is what the "
     "theorems quantify over, their own assertions and loops are explored by the search",
-    "hook commits d67d860, 40c2795 (cfg-gated re-export of desc_to_lines, sort_result, BacktrackPoint, is_ws, is_blank)",
+    "hook commits ec5f1df, 4804714 (cfg-gated re-export of desc_to_lines, sort_result, BacktrackPoint, is_ws, is_blank)",
     "translator lib/c37_classes.py: the code points of util::is_ws read off its `matches!` patterns (anchor checks on is_blank and on the "
     "chars-counted / bytes-stripped indentation code of desc_to_lines); validated on every run against the extension of the real "
     "predicates over all Unicode scalar values (harness `c37 classes`)",
